@@ -262,38 +262,38 @@ Proof.
   all: destruct l as [|[n| |] [|? ?]]; try discriminate.
   all: try (destruct (rd_slice 10 s) as [[line0 ?] ?] eqn:E0).
   - (* 9 *) destruct (rd_writeto s) as [[d e] s1] eqn:E. intros H; inversion H; subst.
-    destruct (rd_writeto_S S Swf s d e s' HS E) as (HS1 & [HL1 HL2]). split; [exact HS1|].
+    destruct (rd_writeto_S S s d e s' HS E) as (HS1 & [HL1 HL2]). split; [exact HS1|].
     eexists. split; [reflexivity|]. cbn [reader_op_ok]. rewrite (slice_at_of_law _ _ Hpos HL1). lia.
   - (* 5 *) destruct (rd_line s) as [[[d pre] e] s1] eqn:E. intros H; inversion H; subst.
-    destruct (rd_line_S S Swf s d pre e s' HS E) as [HS1 [term (Hsub & Hterm & Hlen & Hpre)]].
+    destruct (rd_line_S S s d pre e s' HS E) as [HS1 [term (Hsub & Hterm & Hlen & Hpre)]].
     destruct (rd_line_shape s d pre e s' HI E) as [Hno Herr].
     destruct (pulled_bound s' HS1) as (_ & _ & _ & _). pose proof HS1 as (_ & HtS1 & _).
     destruct (sub_parts _ _ _ _ Hpos HtS1 Hsub Hlen) as [Hd Ht].
     split; [exact HS1|]. eexists. split; [reflexivity|].
     assert (Hpre' : (if negb ((if pre then 1 else 0) =? 0) then bytes_eqb term [] else bytes_eqb term [] || bytes_eqb term [10] || bytes_eqb term [13; 10]) = true).
     { destruct pre; [rewrite (Hpre eq_refl); reflexivity|]. destruct Hterm as [->|[->| ->]]; reflexivity. }
-    unfold vbool. destruct pre; cbn [reader_op_ok]; rewrite (slice_at_of_law _ _ Hpos Hd), Hno, Ht; cbn [negb andb];
+    unfold vbool, VT, VF. destruct pre; cbn [reader_op_ok]; rewrite (slice_at_of_law _ _ Hpos Hd), Hno, Ht; cbn [negb andb];
       (assert (blen term =? rtotal s' - (rtotal s + blen d) = true) as -> by lia); cbn [andb]; rewrite Hpre'; cbn [andb];
       (destruct (e =? 0) eqn:Ee; [reflexivity|rewrite (Herr ltac:(lia)); reflexivity]).
   - (* 3 *) destruct (rd_unread s) as [e s1] eqn:E. intros H; inversion H; subst.
     destruct (rd_unread_S S s e s' HS E) as [HS1 HL]. split; [exact HS1|].
     eexists. split; [reflexivity|]. cbn [reader_op_ok]. destruct (e =? 0); lia.
   - (* 6 *) destruct (rd_peek n s) as [[d e] s1] eqn:E. intros H; inversion H; subst.
-    destruct (rd_peek_S S s n d e s' HS E) as (HS1 & Ht & HL). pose proof (rd_peek_shape n s d e s' HI E) as Hsh.
+    destruct (rd_peek_S S n s d e s' HS E) as (HS1 & Ht & HL). pose proof (rd_peek_shape n s d e s' HI E) as Hsh.
     split; [exact HS1|]. eexists. split; [reflexivity|]. cbn [reader_op_ok].
     rewrite (slice_at_of_law _ _ Hpos HL), Hsh, Ht, Z.eqb_refl. reflexivity.
   - (* 8 *) destruct (rd_bytes n s) as [[d e] s1] eqn:E. intros H; inversion H; subst.
-    destruct (rd_bytes_loop_S S Swf _ n s d e s' HS E) as (HS1 & [HL1 HL2]).
+    destruct (rd_bytes_loop_S S _ n s d e s' HS E) as (HS1 & [HL1 HL2]).
     pose proof (rd_bytes_loop_shape _ n s d e s' HI E) as Hsh.
     split; [exact HS1|]. eexists. split; [reflexivity|]. cbn [reader_op_ok].
     rewrite (slice_at_of_law _ _ Hpos HL1), Hsh. lia.
   - (* 4 *) destruct (rd_slice n s) as [[d e] s1] eqn:E. intros H; inversion H; subst.
-    destruct (rd_slice_S S Swf n s d e s' HS E) as (HS1 & [HL1 HL2] & _).
+    destruct (rd_slice_S S n s d e s' HS E) as (HS1 & [HL1 HL2] & _).
     pose proof (rd_slice_shape n s d e s' HI E) as Hsh.
     split; [exact HS1|]. eexists. split; [reflexivity|]. cbn [reader_op_ok].
     rewrite (slice_at_of_law _ _ Hpos HL1), Hsh. lia.
   - (* 2 *) destruct (rd_byte s) as [[c e] s1] eqn:E. intros H; inversion H; subst.
-    destruct (rd_byte_loop_S S Swf _ s c e s' HS E) as [HS1 HL]. split; [exact HS1|].
+    destruct (rd_byte_loop_S S _ s c e s' HS E) as [HS1 HL]. split; [exact HS1|].
     eexists. split; [reflexivity|]. cbn [reader_op_ok]. destruct (e =? 0); [|lia].
     destruct HL as [Hc Ht]. pose proof HS1 as (_ & HtS1 & _).
     assert (Hd : [c] = sub S (rtotal s) (rtotal s + blen [c])).
@@ -307,3 +307,52 @@ Proof.
     rewrite (slice_at_of_law _ _ Hpos HL1). lia.
 Qed.
 End Central.
+
+(* ---------- reader histories ---------- *)
+Lemma reader_run_ok S (Swf : Forall (fun b => 0 <= b) S) : forall ops s lrs obs, InvS S s ->
+  forallb rune_free ops = true -> reader_run false ops (s, lrs) = Some obs ->
+  prop_reader S (rtotal s) ops obs = true.
+Proof.
+  induction ops as [|op ops IH]; intros s lrs obs HS Hrf; cbn [reader_run].
+  - intros E; inversion E; subst. reflexivity.
+  - cbn [forallb] in Hrf. apply andb_true_iff in Hrf. destruct Hrf as [Hr1 Hr2].
+    destruct (reader_step false op (s, lrs)) as [[o [s1 l1]]|] eqn:Es; [|discriminate].
+    destruct (reader_step_ok S Swf op s lrs o s1 l1 HS Hr1 Es) as [HS1 [ret [Ho Hok]]].
+    destruct (reader_run false ops (s1, l1)) as [os|] eqn:Er; [|discriminate].
+    intros E; inversion E; subst. cbn [prop_reader].
+    destruct (pulled_bound S s1 HS1) as (Hp & Ht0 & Hb & Ht).
+    replace (rpulled s1 - buffered s1) with (rtotal s1) by lia.
+    rewrite Hok, (IH s1 l1 os HS1 Hr2 Er). lia.
+Qed.
+
+Definition wf_rop (op : val) : bool :=
+  match op with
+  | VL [VZ 1; VZ n] => 0 <=? n
+  | VL [VZ 2] | VL [VZ 3] | VL [VZ 5] | VL [VZ 9] => true
+  | VL [VZ 4; VZ _] | VL [VZ 6; VZ _] | VL [VZ 8; VZ _] => true
+  | _ => false
+  end.
+
+Lemma wf_rop_step op st : wf_rop op = true -> rune_free op = true /\ exists o st', reader_step false op st = Some (o, st').
+Proof.
+  destruct st as [s lrs]. unfold wf_rop, rune_free, reader_step.
+  destruct op as [z|b|l]; try discriminate.
+  destruct l as [|[tag| |] l]; try discriminate.
+  destruct tag as [|p|p]; try discriminate.
+  repeat (destruct p as [p|p|]; try discriminate).
+  all: destruct l as [|[n| |] [|? ?]]; try discriminate.
+  all: intros Hwf; split; [reflexivity|].
+  all: try (assert (n <? 0 = false) as -> by lia).
+  all: repeat match goal with |- context [let '(_, _) := ?x in _] => destruct x end.
+  all: eexists; eexists; reflexivity.
+Qed.
+
+Lemma wf_rops_run : forall ops st, forallb wf_rop ops = true ->
+  forallb rune_free ops = true /\ exists obs, reader_run false ops st = Some obs.
+Proof.
+  induction ops as [|op ops IH]; intros st H; cbn [forallb reader_run] in *.
+  - split; [reflexivity|eexists; reflexivity].
+  - apply andb_true_iff in H. destruct H as [H1 H2].
+    destruct (wf_rop_step op st H1) as [Hr [o [st' Hs]]]. rewrite Hs, Hr.
+    destruct (IH st' H2) as [Hr2 [obs Ho]]. rewrite Ho, Hr2. split; [reflexivity|eexists; reflexivity].
+Qed.
